@@ -696,6 +696,11 @@ def run_geom(case, col):
     if case.get("records"):
         rec_patterns = list(itertools.product(("ATOM", "HETATM"), repeat=n))
     radii_tuples = list(itertools.product(RADII, repeat=n))
+    if case.get("records") and n > 1:
+        # record patterns: radii (r, r') with r' = r or the next radius
+        radii_tuples = [r for r in radii_tuples
+                        if RADII.index(r[1]) in (RADII.index(r[0]),
+                                                 (RADII.index(r[0]) + 1) % 3)]
     if case.get("r0") is not None:  # chunk: radius of the first site fixed
         radii_tuples = [r for r in radii_tuples if r[0] == RADII[case["r0"]]]
     for sites in atom_tuples(n, case.get("mode", "star"),
